@@ -65,10 +65,28 @@ PAIRS = (
 )
 
 
+# codon models (61 states, slower): predicates that overlap (the CpG terms of the
+# H04 family lie inside kappa), conditional / monomer / tuple motif probabilities
+CODON_PAIRS = (
+    ("MG94HKY", "MG94GTR", "matrix"),
+    ("CNFHKY", "CNFGTR", "matrix"),
+    ("Y98", "H04G", "matrix"),
+    ("Y98", "H04GK", "matrix"),
+    ("Y98", "H04GGK", "matrix"),
+    ("H04G", "H04GGK", "matrix"),
+    ("H04GK", "H04GGK", "matrix"),
+    ("MG94HKY", "MG94HKY", "scope-edges"),
+    ("Y98", "Y98", "scope-indep"),
+    ("H04GK", "H04GK", "scope-edges"),
+    ("CNFGTR", "CNFGTR", "scope-edges"),
+)
+CODON_MODELS = frozenset(m for p in CODON_PAIRS for m in p[:2])
+
+
 def gen(rng, tier, index):
     pair = PAIRS[index % len(PAIRS)] if index < 3 * len(PAIRS) else rng.choice(PAIRS)
-    if tier == "thorough" and rng.random() < 0.03:
-        pair = ("MG94HKY", "MG94GTR", "matrix")
+    if rng.random() < (0.04 if tier == "quick" else 0.06):
+        pair = rng.choice(CODON_PAIRS)
     plan = {
         "engine": "c16",
         "null": pair[0], "alt": pair[1], "kind": pair[2],
@@ -100,6 +118,9 @@ def gen(rng, tier, index):
         "ts_bias": rng.choice([0.6, 0.6, 0.9]),
         "user_mprobs": [round(rng.uniform(0.1, 1.0), 3) for _ in range(4)],
         "chain": rng.random() < 0.5,
+        # the nested model holds one of its rate parameters constant (everywhere, or
+        # on an edge set): 0 = no, 1 = everywhere, 2 = on the selected edges
+        "null_const": rng.choice([0, 0, 0, 0, 0, 0, 1, 1, 2, 1]),
     }
     return plan
 
@@ -128,7 +149,7 @@ def make_data(plan):
     r = random.Random(f"{plan['aln_seed']}|{plan['len']}|{plan['div']}|{plan.get('ts_bias', 0.6)}")
     tot = sum(plan["base_freqs"])
     weights = [v / tot for v in plan["base_freqs"]]
-    codon = plan["null"].startswith("MG94")
+    codon = plan["null"] in CODON_MODELS
     n = plan["len"] if not codon else 3 * max(10, plan["len"] // 5)
     base = r.choices("ACGT", weights=weights, k=n)
     seqs = {}
@@ -155,7 +176,7 @@ def build(plan, which, aln, tree):
     if plan["kind"] == "mprobs" and which == "alt":
         kw["optimise_motif_probs"] = True
     mode = plan.get("mprobs_mode", "empirical")
-    equal_freq_null = plan["null"] in ("JC69", "K80") or name.startswith("MG94")
+    equal_freq_null = plan["null"] in ("JC69", "K80") or name in CODON_MODELS
     if mode == "optimised" and not equal_freq_null:
         # motif probabilities are free parameters of both models
         kw["optimise_motif_probs"] = True
@@ -165,6 +186,16 @@ def build(plan, which, aln, tree):
         tot = sum(plan["user_mprobs"])
         lf.set_motif_probs({b: v / tot for b, v in zip("TCAG", plan["user_mprobs"])})
     edges = [e.name for e in tree.get_edge_vector(include_root=False)]
+    if which == "null" and plan.get("null_const") and plan["kind"] in ("matrix", "mprobs", "matrix+scope"):
+        pars = [p for p in lf.get_param_names() if p not in ("mprobs", "length")]
+        if pars:
+            par = pars[int(plan["start"][2] * len(pars)) % len(pars)]
+            v = round(0.3 + plan["start"][3] * 3.0, 4)
+            if plan["null_const"] == 2:
+                sel = sorted({edges[e % len(edges)] for e in plan["scope_edges"]})
+                lf.set_param_rule(par, edges=sel, is_constant=True, value=v)
+            else:
+                lf.set_param_rule(par, is_constant=True, value=v)
     if plan["kind"] == "matrix+scope":
         if which == "alt":
             pars = [p for p in lf.get_param_names() if p not in ("mprobs", "length")]
@@ -331,6 +362,8 @@ def run(plan, tier="quick") -> RunResult:
     res = RunResult()
     res.config = "eval-failures" if plan["fail_rate"] else "fault-free"
     replay = plan
+    # (the minimiser shortens lists: missing start values read as 0.5)
+    plan = {**plan, "start": (list(plan["start"]) + [0.5] * 8)[:8]}
     counter = [0, 0]
     h = hashlib.sha256()
     out = io.StringIO()
@@ -345,6 +378,10 @@ def run(plan, tier="quick") -> RunResult:
         except Exception as e:  # noqa: BLE001
             res.probe(f"setup-refused:{type(e).__name__}")
             return _finish(res, h, plan)
+        if plan["null"] in CODON_MODELS:
+            res.probe("codon-pair")
+        if any(r.get("is_constant") and r["par_name"] not in ("length", "mprobs") for r in null.get_param_rules()):
+            res.probe("null-holds-constant-rate:" + ("edge-set" if plan.get("null_const") == 2 else "everywhere"))
         if not math.isfinite(null.lnL):
             res.probe("non-finite-start")
             return _finish(res, h, plan)
@@ -581,7 +618,7 @@ CROSS_HASHSEED = 64
 EVIDENCE = {
     "rule": (
         "scenario = nested pair (23 pairs: by rate matrix F81/HKY85/TN93/GTR/GN, JC69/K80; by motif-probability "
-        "freedom K80->HKY85, JC69->F81; by scope: global vs per-edge / edge-set parameter, a null that already has a two-scope parameter refined further, and pairs nested by matrix and scope at once; MG94HKY->MG94GTR in thorough) "
+        "freedom K80->HKY85, JC69->F81; by scope: global vs per-edge / edge-set parameter, a null that already has a two-scope parameter refined further, and pairs nested by matrix and scope at once; in 40% of matrix/mprobs pairs the null holds one rate parameter constant, everywhere or on an edge set; 4% (quick) / 6% (thorough) of scenarios use one of 11 codon pairs: MG94HKY->MG94GTR, CNFHKY->CNFGTR, Y98->H04G/H04GK/H04GGK, H04G/H04GK->H04GGK, scope pairs on MG94HKY, Y98, H04GK, CNFGTR) "
         "x tree (3-5 taxa) x simulated alignment (length, divergence, base composition) x start values x optimiser "
         "settings (local / global / both, tolerance, max_restarts, seed, bounds) x cut-offs n1, n2 from 1..400 x "
         "a plan-chosen pseudo-random region of parameter space (0/3/10/30% of points) in which a calculator update is "
@@ -600,6 +637,7 @@ EVIDENCE = {
     ],
     "expected_probes": ["cut-off-sweep", "hypothesis-app", "nested-init-exact:matrix", "nested-init-exact:scope-indep",
                         "nested-init-exact:scope-edges", "nested-init-exact:mprobs", "nested-init-exact:scope2-indep",
-                        "nested-init-exact:scope2-edges"],
+                        "nested-init-exact:scope2-edges", "codon-pair", "null-holds-constant-rate:everywhere",
+                        "null-holds-constant-rate:edge-set"],
     "explanation": "C16 cuts optimiser runs at swept evaluation counts with injected evaluation failures and checks the nested-initialisation and monotonicity invariants.",
 }
